@@ -29,6 +29,7 @@ func ruleC15(prog *Program, rep *Report) {
 	ruleEmbeddedNil(prog, rep)
 	ruleTableShape(prog, rep, "oj", "sen", "alt")
 	ruleDispatchArgs(prog, rep, "oj", "sen", "alt")
+	rulePkgTwins(prog, rep, "oj", "sen", 40) // sen's writer, field plans and accessors are copies of oj's
 }
 
 // fieldLoops finds `for` loops whose init or condition calls NumField().
